@@ -162,6 +162,20 @@ def classify_effects(p):
     return evs
 
 
+_FB = [None]
+
+
+def _field_names(tystr):
+    fb = _FB[0]
+    if fb is None:
+        return None
+    for c in fb.crates:
+        a = c.adts.get(tystr)
+        if a and a.get('kind') == 'struct':
+            return [f['name'] for f in a['variants'][0]['fields']]
+    return None
+
+
 class WriterModel:
     def __init__(self, fb, chk, rule):
         self.ok = False
@@ -198,6 +212,7 @@ class ReaderModel:
         self.body = cands[0]
         chk.saw(self.body)
         pointer_roles(fb)
+        _FB[0] = fb
         self.engine = common.mk_engine(fb, loop_unroll=unroll)
         self.paths = [p for p in self.engine.run(self.body) if p.kind != 'unreachable']
         chk.analysed['paths'] += len(self.paths)
@@ -207,9 +222,18 @@ class ReaderModel:
     @staticmethod
     def self_stores(p):
         out = {}
+
+        def put(name, v):
+            # a nested private struct assigned as a whole is expanded into its fields (positional names when unknown)
+            if v[0] == 'agg' and v[2] is not None and v[3] and v[1].startswith(common.SHM) and not v[1].endswith('ClockErrorBound'):
+                names = _field_names(v[1])
+                for i_, fv in enumerate(v[3]):
+                    put('%s.%s' % (name, names[i_] if names and i_ < len(names) else i_), fv)
+            else:
+                out[name] = v
         for k, v in p.state.store.items():
-            if k[0][0] == 'S' and k[1] and len(k[1]) == 1 and k[1][0][0] == 'f':
-                out[k[1][0][2]] = v
+            if k[0][0] == 'S' and k[0][1][0] == 'sym' and k[1] and all(e[0] == 'f' for e in k[1]):
+                put('.'.join(str(e[2] if e[2] is not None else e[1]) for e in k[1]), v)
         return out
 
     @staticmethod
@@ -218,7 +242,7 @@ class ReaderModel:
         v = p.value
         if p.kind == 'return' and v[0] == 'agg' and v[2] == 'Ok' and v[3] and v[3][0][0] == 'ref':
             base, proj = v[3][0][1]
-            if base[0] == 'S' and base[1][0] == 'sym' and len(proj) == 1 and proj[-1][0] == 'f':
-                return proj[-1][2]
+            if base[0] == 'S' and base[1][0] == 'sym' and proj and all(e[0] == 'f' for e in proj):
+                return '.'.join(str(e[2] if e[2] is not None else e[1]) for e in proj)
             return '<not-self:%s>' % psi.fmt_place(v[3][0][1])
         return None
